@@ -287,6 +287,44 @@ func Run(r *mc.Run) {
 		"combinations": "1.5 KiB paragraph x every sibling size; 40 KiB x {none, 512, 31000, 32768}; 140 KiB x {none, 31000}; each x 6 control encodings; data file of 1 MiB+17 (thorough also 3 MiB+511) x 6 data encodings",
 		"filler":       "gen.PatternBytes (incompressible)"}, len(szIns), func(i int, st *mc.Stats) bool { return runIns(r, "sizes", c, szIns[i:i+1], st) })
 
+	// ---- scenario 1h: deb.LoadFile on every kind of path (symlinks, hard link, relative)
+	pathScenario(r, c, comps)
+
+	// ---- scenario 1i: extra ar members whose names consist of slashes (the GNU symbol table "/", the GNU long-name table
+	// "//" with a "/0" reference member): "an index of all ar members" - ArContent lists every member.
+	{
+		specials := [][]gen.ArMember{
+			{{Name: "/", Data: []byte("\x00\x00\x00\x00")}},
+			{{Name: "//", Data: []byte("a-very-long-member-name.txt/\n")}},
+			{{Name: "///", Data: []byte("x")}},
+			{{Name: "//", Data: []byte("a-very-long-member-name.txt/\n")}, {Name: "/0", Data: []byte("content of the long-named member\n")}},
+			{{Name: "/", Data: nil}, {Name: "//", Data: nil}},
+		}
+		var sins []In
+		for _, pr := range [][2]string{{"gz", "gz"}, {"none", "gz"}} {
+			for _, sp := range specials {
+				for pos := 0; pos <= 3; pos++ {
+					in := mkIn(ps[1], controlEntrySets[2], dfs[2], pr[0], pr[1], "", "")
+					in.RawExtra, in.RawPos = sp, pos
+					in.Orders = true
+					if pos == 0 {
+						in.Verdict = "lenient" // a member before debian-binary
+					}
+					var ns []string
+					for _, m := range sp {
+						ns = append(ns, fmt.Sprintf("%q", m.Name))
+					}
+					in.Name += fmt.Sprintf(" extra member(s) %s at position %d", strings.Join(ns, ","), pos)
+					sins = append(sins, in)
+				}
+			}
+		}
+		MapOrderBound = 1
+		r.Scenario("ar-special-members", map[string]interface{}{"extra_member_names": []string{"/", "//", "///", "// followed by /0", "/ and // (both empty)"}, "positions": "0..3",
+			"reference": "the names the harness's own ar reader (gen.ParseAr: blank-trimmed, one trailing slash removed - the rule of deb.Ar) finds in the same bytes",
+			"orders":    MapOrderNote}, len(sins), func(i int, st *mc.Stats) bool { return runIns(r, "ar-special-members", c, sins[i:i+1], st) })
+	}
+
 	// ---- scenario 1g: the OTHER FILES of the control tar: entries in subdirectories whose base name is "control" (with and
 	// without a paragraph inside), near names, links, spellings of the real entry, the real entry first / middle / last
 	// among 1..40 siblings. Expected: the paragraph packaged as the top-level ./control.
